@@ -129,6 +129,70 @@ def body_words(fs):
     return pyfrag.lex(fs[i + 1:])
 
 
+LK_TABLE = [[0.0, 0.0], [1.0, 1.0], [2.0, 4.0], [3.0, 9.0], [4.0, 16.0], [5.0, 25.0]]     # dyadic: float interpolation is exact
+
+
+def probe_lookup():
+    """is `Model._lookup` a function of (x, table) alone?  For every ordered pair (far, x) of arguments — also through the
+    clamped ranges — one model looks up `far` and then `x` in the same table (named table and inline list): rows
+    (far, x, value-after-far), and whether every value equals the one a fresh model returns."""
+    from fractions import Fraction
+    args = [0.5, 1.25, 2.5, 3.5, 4.75, -1.0, 6.0]
+    rows, stateless = [], True
+    for far in args:
+        for x in args:
+            for named in (True, False):
+                m = scratch()
+                m.points["lk"] = [list(q) for q in LK_TABLE]
+                tbl = "lk" if named else [list(q) for q in LK_TABLE]
+                m._lookup(far, tbl)
+                v = float(m._lookup(x, tbl))
+                f = scratch(); f.points["lk"] = [list(q) for q in LK_TABLE]
+                if v != float(f._lookup(x, tbl)):
+                    stateless = False
+                rows.append((Fraction(far), Fraction(x), Fraction(v)))
+    return sorted(set(rows)), stateless
+
+
+def lean_rat(q):
+    return f"(({q.numerator} : Rat) / {q.denominator})"
+
+
+def lookup_history_stream(rng, n_seq):
+    """histories of lookups on ONE model (state, if any, is carried): real values vs an independent interpolation"""
+    tables = {"t5": [[0.0, 1.0], [1.0, 3.0], [2.5, 2.0], [4.0, 6.0], [5.0, 0.5], [7.0, 4.0]],
+              "sq": LK_TABLE, "t3": [[0.0, 2.0], [2.0, -1.0], [3.0, 5.0]]}
+    def ref(x, pts):
+        if x <= pts[0][0]: return pts[0][1]
+        if x >= pts[-1][0]: return pts[-1][1]
+        for (x0, y0), (x1, y1) in zip(pts, pts[1:]):
+            if x <= x1:
+                return (y1 - y0) / (x1 - x0) * (x - x0) + y0
+    bad, n = None, 0
+    for _ in range(n_seq):
+        name = rng.choice(sorted(tables))
+        pts = tables[name]
+        named = rng.chance(1, 2)
+        seq = [rng.choice([-1.0, 0.25, 0.5, 1.0, 1.5, 2.0, 2.75, 3.5, 4.5, 6.0, 6.5, 8.0]) for _ in range(rng.range(2, 10))]
+        m = scratch(); m.points[name] = [list(q) for q in pts]
+        tbl = name if named else [list(q) for q in pts]
+        got = [float(m._lookup(x, tbl)) for x in seq]
+        want = [float(ref(x, pts)) for x in seq]
+        n += len(seq)
+        if bad is None and any(abs(a - b) > 1e-12 * max(1.0, abs(b)) for a, b in zip(got, want)):
+            # shrink: shortest suffix-free history that still fails
+            for i in range(len(seq)):
+                for j in range(i):
+                    m2 = scratch(); m2.points[name] = [list(q) for q in pts]
+                    g2 = [float(m2._lookup(x, tbl)) for x in (seq[j], seq[i])]
+                    if abs(g2[1] - ref(seq[i], pts)) > 1e-12 * max(1.0, abs(ref(seq[i], pts))):
+                        bad = {"table": pts, "named": named, "history": [seq[j], seq[i]], "observed": g2, "expected": [ref(seq[j], pts), ref(seq[i], pts)]}
+                        break
+                if bad: break
+            bad = bad or {"table": pts, "named": named, "history": seq, "observed": got, "expected": want}
+    return n, bad
+
+
 def probe_skeletons():
     """function strings of each element kind around a time-marked placeholder equation"""
     PM = make_pm()
@@ -689,6 +753,17 @@ def run(chk):
     names = []
     for k, e in sob.items():
         lines.append(f"theorem skel_{k} : ({e}) = true := by decide +kernel"); names.append(f"skel_{k}")
+    lk_rows, lk_stateless = probe_lookup()
+    chk.notes["lookup_probe"] = {"rows": len(lk_rows), "stateless": lk_stateless}
+    lines += ["def lkTable : List (Rat × Rat) := [" + ", ".join(f"({lean_rat(__import__('fractions').Fraction(a))}, {lean_rat(__import__('fractions').Fraction(b))})" for a, b in LK_TABLE) + "]",
+              "def lkProbe : List (Rat × Rat × Rat) := [" + ", ".join(f"({lean_rat(a)}, {lean_rat(b)}, {lean_rat(c)})" for a, b, c in lk_rows) + "]",
+              f"def lkCfg : LCfg := ⟨{'true' if lk_stateless else 'false'}⟩"]
+    if lk_stateless:
+        lines += ["theorem lookup_probe_ok : lookupProbeOK lkTable lkProbe = true := by decide +kernel",
+                  "theorem lookup_pure_holds : LookupPure lkCfg := lookup_pure lkCfg (by decide)", "#print axioms lookup_pure_holds"]
+    else:
+        lines += ["theorem lookup_probe_not_ok : lookupProbeOK lkTable lkProbe = false := by decide +kernel",
+                  "theorem lookup_violated : ¬ LookupPure lkCfg := C01_witness_lookup_stateful lkCfg (by decide)", "#print axioms lookup_violated"]
     lines += ["theorem tableT_ok : tableOK L tableT = true := by decide +kernel",
               "theorem tableDt_ok : tableOK L tableDt = true := by decide +kernel",
               "theorem shift_ok : shiftOK tableT tableDt = true := by decide +kernel",
@@ -856,6 +931,13 @@ def run(chk):
         if opaque:
             stats["opaque_models"] = stats.get("opaque_models", 0) + 1
             stats["opaque_within_tol" if ok_model else "opaque_divergent"] = stats.get("opaque_within_tol" if ok_model else "opaque_divergent", 0) + 1
+    n_lk, lk_bad = lookup_history_stream(chk.rng.fork("lookup"), 200 if chk.quick else 3000)
+    stats["lookup_history_values"] = n_lk
+    if lk_bad is not None or not lk_stateless:
+        if lk_bad is None:
+            lk_bad = {"probe": "value after an unrelated lookup differs from a fresh model's", "table": LK_TABLE}
+        chk.add_finding("lookup-stateful", f"Model._lookup depends on earlier lookups: history {lk_bad.get('history')} in table {lk_bad.get('table')} returns {lk_bad.get('observed')}, clamped linear interpolation gives {lk_bad.get('expected')}",
+                        {"lookup_history": lk_bad})
     chk.cov["traces_validated_against_impl"] = len(metas)
     chk.cov["distribution"] = stats
     chk.cov["rule"] = ("a deterministic directed family (every leaf / built-in form as left and right operand of − and ÷ directly inside a stock equation and a flow) + "
@@ -891,6 +973,13 @@ def run(chk):
 def replay(path):
     quiet_bptk_logging()
     r = json.load(open(path))["replay"]
+    if "lookup_history" in r and "history" in r["lookup_history"]:
+        h = r["lookup_history"]
+        m = scratch(); m.points["tbl"] = [list(q) for q in h["table"]]
+        tbl = "tbl" if h.get("named") else [list(q) for q in h["table"]]
+        got = [float(m._lookup(x, tbl)) for x in h["history"]]
+        print("lookup history", h["history"], "->", got, "expected", h["expected"])
+        return 1 if any(abs(a - b) > 1e-12 * max(1.0, abs(b)) for a, b in zip(got, h["expected"])) else 0
     if "spec" not in r:
         print(r); return 1
     def tup(x): return tuple(tup(y) for y in x) if isinstance(x, list) else x
